@@ -1104,7 +1104,7 @@ type zipDestination interface {
 }
 
 // This code is dity but much more concise than the original implementation.
-func zipInnerSubscription[T any](subscriberCtx context.Context, obs Observable[T], mu *sync.Mutex, values *[]*T, completed *bool, onUpdate func(context.Context), destination zipDestination, subscriptions Subscription) {
+func zipInnerSubscription[T any](subscriberCtx context.Context, obs Observable[T], mu, muEmit *sync.Mutex, values *[]*T, completed *bool, onUpdate func(context.Context), destination zipDestination, subscriptions Subscription) {
 	subscriptions.AddUnsubscribable(
 		obs.SubscribeWithContext(
 			subscriberCtx,
@@ -1132,15 +1132,19 @@ func zipInnerSubscription[T any](subscriberCtx context.Context, obs Observable[T
 					mu.Lock()
 
 					*completed = true
+					drained := len(*values) == 0
 
-					if len(*values) == 0 {
-						mu.Unlock()
+					mu.Unlock()
+
+					// Otherwise the queued values still wait for their partners: the other sources stay
+					// subscribed, and onUpdate completes the output once this queue is drained.
+					if drained {
+						// Not before the tuple an emitter may be delivering right now.
+						muEmit.Lock()
 						destination.CompleteWithContext(ctx)
+						muEmit.Unlock()
+
 						subscriptions.Unsubscribe()
-					} else {
-						// The queued values still wait for their partners: the other sources stay
-						// subscribed, and onUpdate completes the output once this queue is drained.
-						mu.Unlock()
 					}
 				},
 			),
@@ -1167,6 +1171,7 @@ func ZipWith1[A, B any](obsB Observable[B]) func(Observable[A]) Observable[lo.Tu
 	return func(obsA Observable[A]) Observable[lo.Tuple2[A, B]] {
 		return NewObservableWithContext(func(subscriberCtx context.Context, destination Observer[lo.Tuple2[A, B]]) Teardown {
 			var mu sync.Mutex
+			var muEmit sync.Mutex // orders the deliveries, see onUpdate
 
 			var valueA []*A
 			var valueB []*B
@@ -1175,6 +1180,19 @@ func ZipWith1[A, B any](obsB Observable[B]) func(Observable[A]) Observable[lo.Tu
 			var completedB bool
 
 			onUpdate := func(ctx context.Context) {
+				mu.Lock()
+				ready := len(valueA) > 0 && len(valueB) > 0
+				mu.Unlock()
+
+				if !ready {
+					return
+				}
+
+				// One emitter at a time: a tuple is delivered before the next one is taken and before
+				// the output is completed, whichever goroutines the sources emit from.
+				muEmit.Lock()
+				defer muEmit.Unlock()
+
 				mu.Lock()
 
 				if len(valueA) > 0 && len(valueB) > 0 {
@@ -1203,8 +1221,8 @@ func ZipWith1[A, B any](obsB Observable[B]) func(Observable[A]) Observable[lo.Tu
 			}
 
 			subscriptions := NewSubscription(nil)
-			zipInnerSubscription(subscriberCtx, obsA, &mu, &valueA, &completedA, onUpdate, destination, subscriptions)
-			zipInnerSubscription(subscriberCtx, obsB, &mu, &valueB, &completedB, onUpdate, destination, subscriptions)
+			zipInnerSubscription(subscriberCtx, obsA, &mu, &muEmit, &valueA, &completedA, onUpdate, destination, subscriptions)
+			zipInnerSubscription(subscriberCtx, obsB, &mu, &muEmit, &valueB, &completedB, onUpdate, destination, subscriptions)
 
 			return func() {
 				subscriptions.Unsubscribe()
@@ -1233,6 +1251,7 @@ func ZipWith2[A, B, C any](obsB Observable[B], obsC Observable[C]) func(Observab
 	return func(obsA Observable[A]) Observable[lo.Tuple3[A, B, C]] {
 		return NewObservableWithContext(func(subscriberCtx context.Context, destination Observer[lo.Tuple3[A, B, C]]) Teardown {
 			var mu sync.Mutex
+			var muEmit sync.Mutex // orders the deliveries, see onUpdate
 
 			var valueA []*A
 			var valueB []*B
@@ -1243,6 +1262,19 @@ func ZipWith2[A, B, C any](obsB Observable[B], obsC Observable[C]) func(Observab
 			var completedC bool
 
 			onUpdate := func(ctx context.Context) {
+				mu.Lock()
+				ready := len(valueA) > 0 && len(valueB) > 0 && len(valueC) > 0
+				mu.Unlock()
+
+				if !ready {
+					return
+				}
+
+				// One emitter at a time: a tuple is delivered before the next one is taken and before
+				// the output is completed, whichever goroutines the sources emit from.
+				muEmit.Lock()
+				defer muEmit.Unlock()
+
 				mu.Lock()
 
 				if len(valueA) > 0 && len(valueB) > 0 && len(valueC) > 0 {
@@ -1273,9 +1305,9 @@ func ZipWith2[A, B, C any](obsB Observable[B], obsC Observable[C]) func(Observab
 			}
 
 			subscriptions := NewSubscription(nil)
-			zipInnerSubscription(subscriberCtx, obsA, &mu, &valueA, &completedA, onUpdate, destination, subscriptions)
-			zipInnerSubscription(subscriberCtx, obsB, &mu, &valueB, &completedB, onUpdate, destination, subscriptions)
-			zipInnerSubscription(subscriberCtx, obsC, &mu, &valueC, &completedC, onUpdate, destination, subscriptions)
+			zipInnerSubscription(subscriberCtx, obsA, &mu, &muEmit, &valueA, &completedA, onUpdate, destination, subscriptions)
+			zipInnerSubscription(subscriberCtx, obsB, &mu, &muEmit, &valueB, &completedB, onUpdate, destination, subscriptions)
+			zipInnerSubscription(subscriberCtx, obsC, &mu, &muEmit, &valueC, &completedC, onUpdate, destination, subscriptions)
 
 			return func() {
 				subscriptions.Unsubscribe()
@@ -1305,6 +1337,7 @@ func ZipWith3[A, B, C, D any](obsB Observable[B], obsC Observable[C], obsD Obser
 	return func(obsA Observable[A]) Observable[lo.Tuple4[A, B, C, D]] {
 		return NewObservableWithContext(func(subscriberCtx context.Context, destination Observer[lo.Tuple4[A, B, C, D]]) Teardown {
 			var mu sync.Mutex
+			var muEmit sync.Mutex // orders the deliveries, see onUpdate
 
 			var valueA []*A
 			var valueB []*B
@@ -1317,6 +1350,19 @@ func ZipWith3[A, B, C, D any](obsB Observable[B], obsC Observable[C], obsD Obser
 			var completedD bool
 
 			onUpdate := func(ctx context.Context) {
+				mu.Lock()
+				ready := len(valueA) > 0 && len(valueB) > 0 && len(valueC) > 0 && len(valueD) > 0
+				mu.Unlock()
+
+				if !ready {
+					return
+				}
+
+				// One emitter at a time: a tuple is delivered before the next one is taken and before
+				// the output is completed, whichever goroutines the sources emit from.
+				muEmit.Lock()
+				defer muEmit.Unlock()
+
 				mu.Lock()
 
 				if len(valueA) > 0 && len(valueB) > 0 && len(valueC) > 0 && len(valueD) > 0 {
@@ -1349,10 +1395,10 @@ func ZipWith3[A, B, C, D any](obsB Observable[B], obsC Observable[C], obsD Obser
 			}
 
 			subscriptions := NewSubscription(nil)
-			zipInnerSubscription(subscriberCtx, obsA, &mu, &valueA, &completedA, onUpdate, destination, subscriptions)
-			zipInnerSubscription(subscriberCtx, obsB, &mu, &valueB, &completedB, onUpdate, destination, subscriptions)
-			zipInnerSubscription(subscriberCtx, obsC, &mu, &valueC, &completedC, onUpdate, destination, subscriptions)
-			zipInnerSubscription(subscriberCtx, obsD, &mu, &valueD, &completedD, onUpdate, destination, subscriptions)
+			zipInnerSubscription(subscriberCtx, obsA, &mu, &muEmit, &valueA, &completedA, onUpdate, destination, subscriptions)
+			zipInnerSubscription(subscriberCtx, obsB, &mu, &muEmit, &valueB, &completedB, onUpdate, destination, subscriptions)
+			zipInnerSubscription(subscriberCtx, obsC, &mu, &muEmit, &valueC, &completedC, onUpdate, destination, subscriptions)
+			zipInnerSubscription(subscriberCtx, obsD, &mu, &muEmit, &valueD, &completedD, onUpdate, destination, subscriptions)
 
 			return func() {
 				subscriptions.Unsubscribe()
@@ -1384,6 +1430,7 @@ func ZipWith4[A, B, C, D, E any](obsB Observable[B], obsC Observable[C], obsD Ob
 	return func(obsA Observable[A]) Observable[lo.Tuple5[A, B, C, D, E]] {
 		return NewObservableWithContext(func(subscriberCtx context.Context, destination Observer[lo.Tuple5[A, B, C, D, E]]) Teardown {
 			var mu sync.Mutex
+			var muEmit sync.Mutex // orders the deliveries, see onUpdate
 
 			var valueA []*A
 			var valueB []*B
@@ -1398,6 +1445,19 @@ func ZipWith4[A, B, C, D, E any](obsB Observable[B], obsC Observable[C], obsD Ob
 			var completedE bool
 
 			onUpdate := func(ctx context.Context) {
+				mu.Lock()
+				ready := len(valueA) > 0 && len(valueB) > 0 && len(valueC) > 0 && len(valueD) > 0 && len(valueE) > 0
+				mu.Unlock()
+
+				if !ready {
+					return
+				}
+
+				// One emitter at a time: a tuple is delivered before the next one is taken and before
+				// the output is completed, whichever goroutines the sources emit from.
+				muEmit.Lock()
+				defer muEmit.Unlock()
+
 				mu.Lock()
 
 				if len(valueA) > 0 && len(valueB) > 0 && len(valueC) > 0 && len(valueD) > 0 && len(valueE) > 0 {
@@ -1432,11 +1492,11 @@ func ZipWith4[A, B, C, D, E any](obsB Observable[B], obsC Observable[C], obsD Ob
 			}
 
 			subscriptions := NewSubscription(nil)
-			zipInnerSubscription(subscriberCtx, obsA, &mu, &valueA, &completedA, onUpdate, destination, subscriptions)
-			zipInnerSubscription(subscriberCtx, obsB, &mu, &valueB, &completedB, onUpdate, destination, subscriptions)
-			zipInnerSubscription(subscriberCtx, obsC, &mu, &valueC, &completedC, onUpdate, destination, subscriptions)
-			zipInnerSubscription(subscriberCtx, obsD, &mu, &valueD, &completedD, onUpdate, destination, subscriptions)
-			zipInnerSubscription(subscriberCtx, obsE, &mu, &valueE, &completedE, onUpdate, destination, subscriptions)
+			zipInnerSubscription(subscriberCtx, obsA, &mu, &muEmit, &valueA, &completedA, onUpdate, destination, subscriptions)
+			zipInnerSubscription(subscriberCtx, obsB, &mu, &muEmit, &valueB, &completedB, onUpdate, destination, subscriptions)
+			zipInnerSubscription(subscriberCtx, obsC, &mu, &muEmit, &valueC, &completedC, onUpdate, destination, subscriptions)
+			zipInnerSubscription(subscriberCtx, obsD, &mu, &muEmit, &valueD, &completedD, onUpdate, destination, subscriptions)
+			zipInnerSubscription(subscriberCtx, obsE, &mu, &muEmit, &valueE, &completedE, onUpdate, destination, subscriptions)
 
 			return func() {
 				subscriptions.Unsubscribe()
@@ -1471,6 +1531,7 @@ func ZipWith5[A, B, C, D, E, F any](obsB Observable[B], obsC Observable[C], obsD
 	return func(obsA Observable[A]) Observable[lo.Tuple6[A, B, C, D, E, F]] {
 		return NewObservableWithContext(func(subscriberCtx context.Context, destination Observer[lo.Tuple6[A, B, C, D, E, F]]) Teardown {
 			var mu sync.Mutex
+			var muEmit sync.Mutex // orders the deliveries, see onUpdate
 
 			var valueA []*A
 			var valueB []*B
@@ -1487,6 +1548,19 @@ func ZipWith5[A, B, C, D, E, F any](obsB Observable[B], obsC Observable[C], obsD
 			var completedF bool
 
 			onUpdate := func(ctx context.Context) {
+				mu.Lock()
+				ready := len(valueA) > 0 && len(valueB) > 0 && len(valueC) > 0 && len(valueD) > 0 && len(valueE) > 0 && len(valueF) > 0
+				mu.Unlock()
+
+				if !ready {
+					return
+				}
+
+				// One emitter at a time: a tuple is delivered before the next one is taken and before
+				// the output is completed, whichever goroutines the sources emit from.
+				muEmit.Lock()
+				defer muEmit.Unlock()
+
 				mu.Lock()
 
 				if len(valueA) > 0 && len(valueB) > 0 && len(valueC) > 0 && len(valueD) > 0 && len(valueE) > 0 && len(valueF) > 0 {
@@ -1523,12 +1597,12 @@ func ZipWith5[A, B, C, D, E, F any](obsB Observable[B], obsC Observable[C], obsD
 			}
 
 			subscriptions := NewSubscription(nil)
-			zipInnerSubscription(subscriberCtx, obsA, &mu, &valueA, &completedA, onUpdate, destination, subscriptions)
-			zipInnerSubscription(subscriberCtx, obsB, &mu, &valueB, &completedB, onUpdate, destination, subscriptions)
-			zipInnerSubscription(subscriberCtx, obsC, &mu, &valueC, &completedC, onUpdate, destination, subscriptions)
-			zipInnerSubscription(subscriberCtx, obsD, &mu, &valueD, &completedD, onUpdate, destination, subscriptions)
-			zipInnerSubscription(subscriberCtx, obsE, &mu, &valueE, &completedE, onUpdate, destination, subscriptions)
-			zipInnerSubscription(subscriberCtx, obsF, &mu, &valueF, &completedF, onUpdate, destination, subscriptions)
+			zipInnerSubscription(subscriberCtx, obsA, &mu, &muEmit, &valueA, &completedA, onUpdate, destination, subscriptions)
+			zipInnerSubscription(subscriberCtx, obsB, &mu, &muEmit, &valueB, &completedB, onUpdate, destination, subscriptions)
+			zipInnerSubscription(subscriberCtx, obsC, &mu, &muEmit, &valueC, &completedC, onUpdate, destination, subscriptions)
+			zipInnerSubscription(subscriberCtx, obsD, &mu, &muEmit, &valueD, &completedD, onUpdate, destination, subscriptions)
+			zipInnerSubscription(subscriberCtx, obsE, &mu, &muEmit, &valueE, &completedE, onUpdate, destination, subscriptions)
+			zipInnerSubscription(subscriberCtx, obsF, &mu, &muEmit, &valueF, &completedF, onUpdate, destination, subscriptions)
 
 			return func() {
 				subscriptions.Unsubscribe()
@@ -1557,23 +1631,38 @@ func ZipWith5[A, B, C, D, E, F any](obsB Observable[B], obsC Observable[C], obsD
 
 func zipAllInnerSubscriptions[T any](outerCtx context.Context, sources []Observable[T], destination Observer[[]T]) Teardown {
 	var mu sync.Mutex
+	var muEmit sync.Mutex // orders the deliveries, see onUpdate
 
 	values := make([][]*T, len(sources))
 	completed := make([]bool, len(sources))
 
-	onUpdate := func(ctx context.Context) {
-		mu.Lock()
-
-		hasEmptyQueue := false
-
+	hasEmptyQueue := func() bool {
 		for i := range sources {
 			if len(values[i]) == 0 {
-				hasEmptyQueue = true
-				break
+				return true
 			}
 		}
 
-		if !hasEmptyQueue {
+		return false
+	}
+
+	onUpdate := func(ctx context.Context) {
+		mu.Lock()
+		ready := !hasEmptyQueue()
+		mu.Unlock()
+
+		if !ready {
+			return
+		}
+
+		// One emitter at a time: a tuple is delivered before the next one is taken and before
+		// the output is completed, whichever goroutines the sources emit from.
+		muEmit.Lock()
+		defer muEmit.Unlock()
+
+		mu.Lock()
+
+		if !hasEmptyQueue() {
 			result := make([]T, len(sources))
 			for i := range sources {
 				result[i] = *values[i][0]
@@ -1612,7 +1701,7 @@ func zipAllInnerSubscriptions[T any](outerCtx context.Context, sources []Observa
 
 	for i := range sources {
 		j := i
-		zipInnerSubscription(outerCtx, sources[i], &mu, &(values[j]), &(completed[j]), onUpdate, destination, subscriptions)
+		zipInnerSubscription(outerCtx, sources[i], &mu, &muEmit, &(values[j]), &(completed[j]), onUpdate, destination, subscriptions)
 	}
 
 	return func() {
